@@ -180,6 +180,8 @@ def render_shape(rec):
             L.append("type impl%d%s struct{ tag string }" % (t, GD))
             L.append("func (impl%d%s) call(x %s) %s { return f%d%s(x) }" % (t, G, ty, ty, t, G))
         L.append("")
+    if "deferloop" in shapes:
+        L += ["func keep%s(x %s) {}" % (GD, ty), ""]
     if "empty" in shapes:
         L += ["func emp() {}", "func emp2%s(x %s) {}" % (GD, ty), "func emp3() (r string) { return }", ""]
     if "bodyless" in shapes:
@@ -212,24 +214,27 @@ def render_shape(rec):
             raise ValueError(k)
         return out
 
+    # every function calls the shared helper `work` exactly once: the visitors are context-sensitive over call
+    # strings, so every additional call site of a shared helper multiplies the number of contexts (the decorations
+    # below therefore use copies and the one-call-site helper `keep`)
     for i in range(1, nf + 1):
         L.append("func f%d%s(x %s) %s {" % (i, GD, ty, ty))
         L.append("\ty := work%s(x)" % G)
         if i == 1:
             if "deferloop" in shapes:
-                L += ["\tfor oracle() {", "\t\tdefer work%s(y)" % G, "\t}",
-                      "\tfor j := 0; j < oracleN(); j++ {", "\t\tdefer func() { y = work%s(y) }()" % G, "\t}"]
+                L += ["\tfor oracle() {", "\t\tdefer keep%s(y)" % G, "\t}",
+                      "\tfor j := 0; j < oracleN(); j++ {", "\t\tdefer func() { y = x }()", "\t}"]
             if "goto" in shapes:
-                L += ["\tif oracle() {", "\t\tgoto L2", "\t}", "L1:", "\ty = work%s(y)" % G, "L2:",
-                      "\ty = work%s(y)" % G, "\tif oracle() {", "\t\tgoto L1", "\t}",
+                L += ["\tif oracle() {", "\t\tgoto L2", "\t}", "L1:", "\ty = x", "L2:",
+                      "\tx = y", "\tif oracle() {", "\t\tgoto L1", "\t}",
                       "\tif oracle() {", "\t\tgoto L2", "\t}"]
             if "empty" in shapes:
                 L += ["\temp()", "\temp2%s(y)" % G, "\tdefer emp()", "\tgo emp()", "\t_ = emp3()"]
             if "switch" in shapes:
                 L.append("\tswitch oracleN() {")
-                for c in range(32):
+                for c in range(40):
                     L.append("\tcase %d:" % c)
-                    L.append("\t\ty = work%s(%s)" % (G, "y" if c % 3 else "x"))
+                    L.append("\t\t%s" % ("y = x" if c % 2 else "x = y"))
                     if c == 7:
                         L.append("\t\tfallthrough")
                 L += ["\tdefault:", "\t\ty = x", "\t}"]
